@@ -1,6 +1,7 @@
 package logqlmetric
 
 import (
+	"cmp"
 	"container/heap"
 	"slices"
 
@@ -86,7 +87,14 @@ func (i *vectorAggIterator) Next(r *Step) bool {
 	}
 	result := map[GroupingKey]*group{}
 
-	for _, s := range step.Samples {
+	// Samples arrive in map iteration order and ties are broken by arrival:
+	// order them by label set, so that equal values resolve the same way on every run.
+	samples := slices.Clone(step.Samples)
+	slices.SortStableFunc(samples, func(a, b Sample) int {
+		return cmp.Compare(a.Set.Key(), b.Set.Key())
+	})
+
+	for _, s := range samples {
 		metric := i.grouper(s.Set, i.groupLabels...)
 		groupKey := metric.Key()
 
@@ -148,7 +156,14 @@ func (i *vectorAggHeapIterator) Next(r *Step) bool {
 	}
 	result := map[GroupingKey]*group{}
 
-	for _, s := range step.Samples {
+	// Samples arrive in map iteration order and ties are broken by arrival:
+	// order them by label set, so that equal values resolve the same way on every run.
+	samples := slices.Clone(step.Samples)
+	slices.SortStableFunc(samples, func(a, b Sample) int {
+		return cmp.Compare(a.Set.Key(), b.Set.Key())
+	})
+
+	for _, s := range samples {
 		metric := i.grouper(s.Set, i.groupLabels...)
 		groupKey := metric.Key()
 
